@@ -325,33 +325,34 @@ def StrictSubclass(cls, base_cls):
     )
 
 
+def _member_code(t):
+    """Checking code for a member of a Union or Intersection."""
+    from .dependent import CodeGen, DependentType, generate_checking_code
+
+    cg = generate_checking_code(t)
+    if isinstance(t, DependentType):
+        # The argument may only have matched the bound of another member
+        # (directly in a Union, or when an Intersection is itself a member
+        # of a Union), so each member checks its own bound before its
+        # condition
+        return CodeGen(
+            "(isinstance({arg}, {member_bound}) and " + cg.template + ")",
+            cg.substitutions,
+            member_bound=t.bound,
+        )
+    return cg
+
+
 @parametrized_class_check
 class Union:
     def __init__(self, *types):
         self.__args__ = self.types = types
 
     def codegen(self):
-        from .dependent import (
-            CodeGen,
-            DependentType,
-            combine,
-            generate_checking_code,
-        )
-
-        def member_code(t):
-            cg = generate_checking_code(t)
-            if isinstance(t, DependentType):
-                # The argument only matched the union of the bounds, so each
-                # member must check its own bound before its condition
-                return CodeGen(
-                    "(isinstance({arg}, {member_bound}) and " + cg.template + ")",
-                    cg.substitutions,
-                    member_bound=t.bound,
-                )
-            return cg
+        from .dependent import combine
 
         template = "(" + " or ".join("{}" for t in self.types) + ")"
-        return combine(template, [member_code(t) for t in self.types])
+        return combine(template, [_member_code(t) for t in self.types])
 
     def __type_order__(self, other):
         if other is Union:
@@ -400,12 +401,10 @@ class Intersection:
         self.__args__ = self.types = types
 
     def codegen(self):
-        from .dependent import combine, generate_checking_code
+        from .dependent import combine
 
         template = "(" + " and ".join("{}" for t in self.types) + ")"
-        return combine(
-            template, [generate_checking_code(t) for t in self.types]
-        )
+        return combine(template, [_member_code(t) for t in self.types])
 
     def __type_order__(self, other):
         if other is Intersection:
